@@ -162,13 +162,14 @@ def _worker(chunk):
     return _run_inputs(prog, h, [h.inputs[i] for i in chunk], mw)
 
 
-def run_harness(prog, h, max_witnesses=60, jobs=None):
-    """explore every input shape of the harness (in parallel when there are many)"""
+def run_harness(prog, h, max_witnesses=60, jobs=None, keep_raw=False):
+    """explore every input shape of the harness (in parallel when there are many); keep_raw keeps
+    (z3 model, PathResult) pairs of violating paths — in-process only"""
     t0 = time.time()
     jobs = jobs or int(os.environ.get("VERIF_JOBS", "16"))
     n = len(h.inputs)
-    if n < 12 or jobs <= 1:
-        res = _run_inputs(prog, h, h.inputs, max_witnesses)
+    if n < 12 or jobs <= 1 or keep_raw:
+        res = _run_inputs(prog, h, h.inputs, max_witnesses, keep_raw)
         res.wall_s = time.time() - t0
         return res
     import multiprocessing as mp
@@ -201,8 +202,9 @@ def run_harness(prog, h, max_witnesses=60, jobs=None):
     return res
 
 
-def _run_inputs(prog, h, inputs, max_witnesses=60):
+def _run_inputs(prog, h, inputs, max_witnesses=60, keep_raw=False):
     res = HarnessResult(h.name)
+    res.raw_witnesses = []
     t0 = time.time()
     models = getattr(h, "models_cls", Models)()
     try:
@@ -269,7 +271,9 @@ def _run_inputs(prog, h, inputs, max_witnesses=60):
                     res.samples.append({"shape": label, "args": [to_py(a, mm) for a in args],
                                         "result": to_py(r.value, mm), "decisions": len(r.decisions)})
                 s.pop()
-            if model is not None and len(res.witnesses) < max_witnesses:
+            if model is not None and keep_raw and len(res.raw_witnesses) < max_witnesses:
+                res.raw_witnesses.append((model, r))
+            if model is not None and len(res.witnesses) < max_witnesses and not keep_raw:
                 w = {"shape": label, "args": [to_py(a, model) for a in args], "kind": r.kind,
                      "value": to_py(r.value, model) if r.kind == "return" else r.info}
                 key = h.sig(w["args"], w["kind"], w["value"]) if h.sig else (r.kind, label, len(res.witnesses) % 3)
@@ -364,10 +368,24 @@ def process(rep, prog, nat, h, tier, validate_inputs=(), to_native_args=None, co
         status = "undecided" if not confirmed else status
         for u in res.unsupported[:3]:
             rep.undecided.append(u)
+    record(rep, h, res, status, {"inputs": checked, "mismatches": mism})
+    return res
+
+
+def record(rep, h, res, status=None, validation=None):
+    """add the sub-claim entry of a harness run to the report"""
+    if status is None:
+        sig = "harness=%s" % h.name
+        hit = any(v["witness"].get("harness") == h.name for v in rep.violations) or \
+            any(k["witness"].get("harness") == h.name for k in rep.known_hits)
+        status = "violated" if (hit or getattr(res, "raw_witnesses", None)) else "holds"
+        if res.unsupported:
+            status = "undecided" if status == "holds" else status
+            for u in res.unsupported[:3]:
+                rep.undecided.append(u)
     rep.subclaim(name=h.name, engine="E2 (MIR symbolic execution + z3)",
                  function=(h.func.__doc__ or h.func.__name__) if callable(h.func) else h.func, bound=h.bound,
                  what=h.describe, result=status, shapes=res.shapes, paths=res.paths, panic_paths=res.panic_paths,
                  queries=res.queries, solver_s=round(res.solver_s, 2), wall_s=round(res.wall_s, 2),
-                 concrete_validation={"inputs": checked, "mismatches": mism},
+                 concrete_validation=validation or {"inputs": 0, "mismatches": 0},
                  std_models_used=sorted(res.models_used), samples=res.samples[:2])
-    return res
